@@ -953,6 +953,82 @@ def C18_feed_construction_family():
     return True, f"{n_cases} feed constructions consistent"
 
 
+def C06_loop_trip_family():
+    """exported Loop/Scan bodies against JAX for every trip count they can take: while_loop with a scalar state started so
+    that it runs 0, 1, 2, 5 times (data-dependent bound), a vmapped while_loop whose lanes stop at different iterations and
+    whose predicate is not monotone (a finished lane must stay frozen), fori_loop over a symbolic-free range with a captured
+    array, scan with a carry and stacked outputs of length 1 and 4, a while_loop nested in a fori_loop."""
+    import threading
+    import jax
+    import jax.numpy as jnp
+    from jax import lax
+    import jax2onnx
+    import onnxruntime as ort
+
+    def wl(v):
+        return lax.while_loop(lambda c: c < 5.0, lambda c: c * 1.5 + 1.0, v)
+
+    def one_lane(v):
+        return lax.while_loop(lambda c: jnp.logical_and(c != 3.0, c < 6.0), lambda c: c + 1.0, v)
+
+    def fori_cap(x, w):
+        return lax.fori_loop(0, 3, lambda i, c: c * w + i.astype(c.dtype), x)
+
+    def scan_stack(x):
+        def step(c, t):
+            c = c * 0.5 + t
+            return c, c * 2.0
+        return lax.scan(step, x[0], x)
+
+    def nested(v):
+        return lax.fori_loop(0, 2, lambda i, c: lax.while_loop(lambda d: d < 4.0, lambda d: d + 1.5, c) - 3.0, v)
+
+    progs = [
+        ("while_loop scalar", wl, [jax.ShapeDtypeStruct((), np.float32)], [[np.asarray(v, np.float32)] for v in (9.0, 4.5, 2.0, 0.0)]),
+        ("vmapped while_loop", jax.vmap(one_lane), [jax.ShapeDtypeStruct((2,), np.float32)], [[np.asarray(v, np.float32)] for v in ([0.0, 1.0], [3.0, 3.0], [3.0, 0.0], [2.0, 0.5])]),
+        ("fori_loop with a captured array", fori_cap, [jax.ShapeDtypeStruct((3,), np.float32), jax.ShapeDtypeStruct((3,), np.float32)], [[np.asarray([1.0, 2.0, 3.0], np.float32), np.asarray([0.5, -1.0, 2.0], np.float32)]]),
+        ("scan length 4", scan_stack, [jax.ShapeDtypeStruct((4,), np.float32)], [[np.asarray([1.0, -2.0, 0.5, 4.0], np.float32)]]),
+        ("scan length 1", scan_stack, [jax.ShapeDtypeStruct((1,), np.float32)], [[np.asarray([3.0], np.float32)]]),
+        ("while_loop nested in fori_loop", nested, [jax.ShapeDtypeStruct((), np.float32)], [[np.asarray(v, np.float32)] for v in (0.0, 3.9, 10.0)]),
+    ]
+    n = 0
+    for what, fn, specs, feeds_list in progs:
+        try:
+            m = jax2onnx.to_onnx(fn, specs, model_name="c06")
+        except Exception:
+            continue          # loud
+        so = ort.SessionOptions()
+        so.log_severity_level = 4
+        sess = ort.InferenceSession(m.SerializeToString(), so, providers=["CPUExecutionProvider"])
+        names = [i.name for i in sess.get_inputs()]
+        for arrs in feeds_list:
+            opts = ort.RunOptions()
+            timed_out = threading.Event()
+
+            def _kill():
+                timed_out.set()
+                opts.terminate = True
+            timer = threading.Timer(20.0, _kill)
+            timer.start()
+            try:
+                got = sess.run(None, dict(zip(names, arrs)), run_options=opts)
+            except Exception as e:
+                if timed_out.is_set():
+                    return False, f"{what} on {[np.asarray(a).tolist() for a in arrs]}: the exported Loop does not terminate"
+                return False, f"{what}: ONNX Runtime failed: {str(e)[:160]}"
+            finally:
+                timer.cancel()
+            want = jax.tree_util.tree_leaves(fn(*[jnp.asarray(a) for a in arrs]))
+            if len(got) != len(want):
+                return False, f"{what}: {len(got)} outputs for {len(want)} results"
+            for g, w_ in zip(got, want):
+                w_ = np.asarray(w_)
+                if g.shape != w_.shape or not np.allclose(g, w_, rtol=1e-5, atol=1e-6):
+                    return False, f"{what} on {[np.asarray(a).tolist() for a in arrs]}: model gives {np.asarray(g).tolist()}, JAX gives {w_.tolist()}"
+            n += 1
+    return True, f"{n} loop evaluations agree with JAX"
+
+
 def C03_function_identifiers_unique():
     """the same @onnx_function instantiated inside another function (2,3) and at top level (2,5): every
     function definition has its own (domain, name), the model passes the ONNX checker and agrees with JAX"""
@@ -1442,7 +1518,7 @@ ALL = {
     "C05_output_integer_types_family": C05_output_integer_types_family,
     "C04_dimexpr_family": C04_dimexpr_family,
     "C02_table_family": C02_table_family,
-    "C06_fori_trip_counts": C06_fori_trip_counts, "C06_scan_arity_family": C06_scan_arity_family,
+    "C06_fori_trip_counts": C06_fori_trip_counts, "C06_loop_trip_family": C06_loop_trip_family, "C06_scan_arity_family": C06_scan_arity_family,
     "C07_sharing_family": C07_sharing_family,
     "C03_function_identifiers_unique": C03_function_identifiers_unique,
     "C09_function_body_constants_follow_precision": C09_function_body_constants_follow_precision,
